@@ -312,7 +312,7 @@ func (w *rfWorld) genOf(v *rfVal) *rfGen {
 
 func runRefcount(w *mon.Worker, prop string) {
 	mon.SetMaxSleep(120 * time.Microsecond)
-	n := w.Share(w.Scale(12000, 300000))
+	n := w.Share(w.Scale(12000, 1500000))
 	for i := 0; i < n; i++ {
 		mon.SetProb(0.15, verifhook.RefCountLock, verifhook.RefCountResolveStart, verifhook.RefCountResolveCall, verifhook.RefCountResolveDone, verifhook.BcastEnter, verifhook.BcastExit)
 		mon.SetProb(0.3, verifhook.PromiseSetMid)
@@ -321,10 +321,10 @@ func runRefcount(w *mon.Worker, prop string) {
 	}
 	mon.ClearProb()
 	if prop == "C09" {
-		for i := 0; i < w.Share(w.Scale(800, 20000)); i++ {
+		for i := 0; i < w.Share(w.Scale(800, 100000)); i++ {
 			w.Case("gated-resolver", nil, rfGatedCase)
 		}
-		for i := 0; i < w.Share(w.Scale(400, 10000)); i++ {
+		for i := 0; i < w.Share(w.Scale(400, 50000)); i++ {
 			w.Case("root-cancel-in-flight", nil, rfRootCancelCase)
 		}
 	}
